@@ -94,8 +94,11 @@ func H_C07_Hidden(v *sym.V) {
 	h := hb.Err
 	plain := &plainErr{h.Error()} // same text, no annotations, a type of its own
 	var base error = errors.New("base")
-	if v.Choice("base", 2) == 1 {
+	switch v.Choice("base", 3) {
+	case 1:
 		base = errors.Wrap(context.Canceled, "base") // a primary error whose root is a well-known sentinel
+	case 2:
+		base = errors.WithDetail(errors.New(""), "pd") // a primary error whose whole text is empty
 	}
 	kind := v.Choice("hider", numHiders)
 	m := v.Str("msg", sym.REGNN, 0, 1) // the replacement message, possibly empty
